@@ -114,7 +114,10 @@ pwrite(int fd, const void* buf, size_t n, off_t off)
     long r = nd_long(); /* error, nothing, or any short count */
     VASSUME(r >= -1 && r <= (long)n);
     if (r < 0) {
-        g_errno = 28;
+        /* any error number, EINTR included (a seeded change that treated EINTR as a
+         * retry but still advanced by -1 was missed while this was the constant ENOSPC) */
+        g_errno = nd_int();
+        VASSUME(g_errno > 0 && g_errno < 134);
         return -1;
     }
     if (r > 0) {
